@@ -1,0 +1,46 @@
+#ifndef SQUIDS_DETAIL_VERIFHOOKS_H
+#define SQUIDS_DETAIL_VERIFHOOKS_H
+
+//Instrumentation points for external verification harnesses.
+//Unless SQUIDS_VERIF is defined everything in this file expands to nothing.
+
+#ifdef SQUIDS_VERIF
+
+namespace squids{
+namespace verif{
+
+///Called at schedule points (between the atomic steps of the shared cache)
+typedef void (*point_fn)(int id);
+///Called when the library takes one of several internal paths
+typedef void (*event_fn)(int kind, double a, double b);
+
+inline point_fn& point_hook(){ static point_fn f=nullptr; return(f); }
+inline event_fn& event_hook(){ static event_fn f=nullptr; return(f); }
+
+enum event_kind{
+  EV_EXPM_BRANCH=1,     //a: 0 diagonal shortcut, 3/5/7/9/13 Pade order; b: number of squarings
+  EV_REBIND=2,          //a: 0 evolution-state views, 1 derivative views
+  EV_REBIND_SKIPPED=3,  //a: as above
+  EV_REALIAS=4,         //evolution-state views re-aliased onto the stored state
+  EV_EIGEN_SOLVER=5     //a: 0 closed form attempted, 1 general solver used; b: dimension
+};
+
+///Defined by a harness which needs to inspect private state
+struct access;
+
+} //namespace verif
+} //namespace squids
+
+#define SQUIDS_VERIF_POINT(id) \
+  do{ if(::squids::verif::point_hook()) ::squids::verif::point_hook()(id); }while(0)
+#define SQUIDS_VERIF_EVENT(kind,a,b) \
+  do{ if(::squids::verif::event_hook()) ::squids::verif::event_hook()(::squids::verif::kind,a,b); }while(0)
+
+#else
+
+#define SQUIDS_VERIF_POINT(id) do{}while(0)
+#define SQUIDS_VERIF_EVENT(kind,a,b) do{}while(0)
+
+#endif //SQUIDS_VERIF
+
+#endif //SQUIDS_DETAIL_VERIFHOOKS_H
